@@ -134,7 +134,7 @@ fn run(script: &Script, seed: &Option<Vec<u8>>, faults: Vec<Fault>, log_calls: b
             match o {
                 Outcome::Ok => {
                     if matches!(op, Op::Flush) && r.all_ok {
-                        r.flush_points.push((i + 1, peek.bytes()));
+                        r.flush_points.push((i + 1, peek.durable_bytes()));
                     }
                 }
                 Outcome::Err(_) => {
